@@ -5,10 +5,6 @@
 // linearizable to a sequential LIFO stack; an eliminated push/pop pair must hand the pushed
 // item to exactly one popper.
 #include "common.h"
-#include <cds/algo/backoff_strategy.h>
-#ifndef ELIMBK
-#define ELIMBK cds::backoff::Default
-#endif
 
 #include <cds/container/treiber_stack.h>
 #include <cds/intrusive/treiber_stack.h>
@@ -216,6 +212,8 @@ namespace {
             SchedParams sp = sched_params( c );
             int walk = cfg_at( c, CFG_WALK, 0 );
             if ( walk >= 2 ) {
+                // dense random-walk schedule instead of the generated one: elimination needs two threads
+                // pre-empted between reading the top and their CAS while a third one changes the top
                 sp.rw_denom = uint32_t( walk );
                 sp.rw_seed = c.seed;
             }
@@ -400,17 +398,17 @@ namespace {
     struct is_dyn<cds::opt::v::initialized_dynamic_buffer<T, A, E>> : std::true_type {};
 
     // container traits
-    template <bool Elim, typename Buffer, bool Counted>
+    template <bool Elim, typename Buffer, bool Counted, typename ElimBk>
     struct ctraits : cc::treiber_stack::traits {
         typedef cc::treiber_stack::stat<plain_counter> stat;
         static constexpr const bool enable_elimination = Elim;
         typedef Buffer buffer;
         typedef case_rand random_engine;
-        typedef ELIMBK elimination_backoff;
+        typedef ElimBk elimination_backoff;
         typedef typename std::conditional<Counted, cds::atomicity::item_counter, cds::atomicity::empty_item_counter>::type item_counter;
     };
     // intrusive traits
-    template <typename GC, bool Elim, typename Buffer, bool Counted>
+    template <typename GC, bool Elim, typename Buffer, bool Counted, typename ElimBk>
     struct itraits : ci::treiber_stack::traits {
         typedef ci::treiber_stack::base_hook<cds::opt::gc<GC>> hook;
         typedef node_disposer disposer;
@@ -418,20 +416,24 @@ namespace {
         static constexpr const bool enable_elimination = Elim;
         typedef Buffer buffer;
         typedef case_rand random_engine;
-        typedef ELIMBK elimination_backoff;
+        typedef ElimBk elimination_backoff;
         typedef typename std::conditional<Counted, cds::atomicity::item_counter, cds::atomicity::empty_item_counter>::type item_counter;
     };
 
-    template <typename GC, bool Elim, typename Buffer, bool Counted>
+    // how the passive side waits for a partner: 3 rounds of test + sleep (the default), or 16 rounds of test + spin hint
+    typedef cds::backoff::delay<> wait_delay;
+    typedef cds::backoff::Default wait_spin;
+
+    template <typename GC, bool Elim, typename Buffer, bool Counted, typename ElimBk = wait_delay>
     Verdict run_c( Case const& c )
     {
-        typedef cc::TreiberStack<GC, int, ctraits<Elim, Buffer, Counted>> S;
+        typedef cc::TreiberStack<GC, int, ctraits<Elim, Buffer, Counted, ElimBk>> S;
         return run_stack<GC, ValS<S, Elim && is_dyn<Buffer>::value>>( c );
     }
-    template <typename GC, bool Elim, typename Buffer, bool Counted>
+    template <typename GC, bool Elim, typename Buffer, bool Counted, typename ElimBk = wait_delay>
     Verdict run_i( Case const& c )
     {
-        typedef ci::TreiberStack<GC, SNode<GC>, itraits<GC, Elim, Buffer, Counted>> S;
+        typedef ci::TreiberStack<GC, SNode<GC>, itraits<GC, Elim, Buffer, Counted, ElimBk>> S;
         return run_stack<GC, IntrS<S, SNode<GC>, Elim && is_dyn<Buffer>::value>>( c );
     }
 
@@ -444,19 +446,19 @@ namespace {
         { "TreiberStack_HP_ic", run_c<HP, false, buf_s4, true> },
         { "TreiberStack_HP_elim_s1", run_c<HP, true, buf_s1, false> },
         { "TreiberStack_HP_elim_s2_ic", run_c<HP, true, buf_s2, true> },
-        { "TreiberStack_HP_elim_s4", run_c<HP, true, buf_s4, false> },
+        { "TreiberStack_HP_elim_s4_spinwait", run_c<HP, true, buf_s4, false, wait_spin> },
         { "TreiberStack_HP_elim_dyn", run_c<HP, true, buf_dyn, false> },
         { "TreiberStack_HP_elim_s3any", run_c<HP, true, buf_s3any, false> },
         { "TreiberStack_DHP", run_c<DHP, false, buf_s4, false> },
         { "TreiberStack_DHP_elim_s1_ic", run_c<DHP, true, buf_s1, true> },
-        { "TreiberStack_DHP_elim_s2", run_c<DHP, true, buf_s2, false> },
+        { "TreiberStack_DHP_elim_s2_spinwait", run_c<DHP, true, buf_s2, false, wait_spin> },
         { "TreiberStack_DHP_elim_s4", run_c<DHP, true, buf_s4, false> },
         { "TreiberStack_DHP_elim_dyn_ic", run_c<DHP, true, buf_dyn, true> },
         { "TreiberStack_DHP_elim_dynany", run_c<DHP, true, buf_dynany, false> },
         { "intrusive_TreiberStack_HP", run_i<HP, false, buf_s4, false> },
         { "intrusive_TreiberStack_HP_elim_s2_ic", run_i<HP, true, buf_s2, true> },
         { "intrusive_TreiberStack_DHP_ic", run_i<DHP, false, buf_s4, true> },
-        { "intrusive_TreiberStack_DHP_elim_dyn", run_i<DHP, true, buf_dyn, false> },
+        { "intrusive_TreiberStack_DHP_elim_dyn_spinwait", run_i<DHP, true, buf_dyn, false, wait_spin> },
     };
     const size_t kNumVariants = sizeof( kVariants ) / sizeof( kVariants[0] );
 }
@@ -469,11 +471,11 @@ namespace cdsverif {
             x.name = "stack";
             for ( size_t i = 0; i < kNumVariants; ++i )
                 x.variants.push_back( kVariants[i].name );
-            x.cfg = { { "prefill", 0, 3 }, { "dyn_capacity", 1, 4 }, { "sync_start", 0, 1 }, { "walk", 0, 9 } };
+            x.cfg = { { "prefill", 0, 3 }, { "dyn_capacity", 1, 4 }, { "sync_start", 0, 1 }, { "walk", 0, 4 } };
             x.ops = { { "push", 5, 0, 0 }, { "pop", 5, 0, 0 }, { "scan", 1, 0, 0 } };
             x.min_threads = 2;
-            x.max_threads_quick = 4;
-            x.max_threads_thorough = 5;
+            x.max_threads_quick = 5;
+            x.max_threads_thorough = 6;
             x.max_ops_quick = 3;
             x.max_ops_thorough = 4;
             x.max_preempt_quick = 4;
